@@ -15,6 +15,8 @@ from ..streams import SimTextSource, make_byte_input
 
 ID = 'C12'
 LEVEL = 'exploration'
+IN_PROCESS = True          # scenarios run inside the worker; violations are confirmed in a pristine interpreter (rbqlsim/zygote.py)
+COLD_START_EVERY = 25      # and one run in 25 is executed there in the first place
 TIERS = {
     'quick': {'runs': 25000, 'deadline_s': 75, 'chunk': 100},
     'thorough': {'runs': 1200000, 'deadline_s': 900, 'chunk': 400},
@@ -195,6 +197,9 @@ def generate(rng, tier, idx):
         sc['text'] = text
         sc['shape'] = rng.choice(['plain', 'std'])
         sc['bufsize'] = rng.choice([1, 2, 3, 4, 8, 16, 8192])
+        if sc['level'] == 'utf-8' and rng.random() < 0.08:
+            sc['bad_hex'] = rng.choice(['ff', 'c3', 'e282', '80', 'f09f98', 'c328', 'f0'])
+            sc['bad_at'] = rng.randrange(len(text) + 1)
     else:
         # long content crossing the reader's default chunk size (1024) and TextIOWrapper's 8192 chunk
         sc['level'] = rng.choice(['text', 'utf-8'])
@@ -205,17 +210,17 @@ def generate(rng, tier, idx):
         sc['shape'] = rng.choice(['plain', 'std'])
         sc['bufsize'] = rng.choice([1, 7, 512, 8192])
     er = rng.random()
-    if er < 0.06:
+    if er < 0.06 and not sc.get('bad_hex'):
         sc['entry'] = 'num_rows'
         sc['num_rows'] = rng.choice([1, 2, 3])
         sc['line_mode'] = False
-    elif er < 0.16 and sc['level'] != 'text':
+    elif er < 0.16 and sc['level'] != 'text' and not sc.get('bad_hex'):
         # the reader's other users: rbql_main.sample_lines / sample_records and the CSV join registry, all of which open the
         # file themselves (the schedule is delivered through the tracked open() seam)
         sc['entry'] = rng.choice(['sample_lines', 'sample_records', 'join_registry'])
         sc['line_mode'] = False
     text = sc['text']
-    n = len(text) if sc['level'] == 'text' else len(text.encode('utf-8'))
+    n = len(text) if sc['level'] == 'text' else len(scenario_bytes(sc))
     limit = 8 if sc['level'] == 'text' else 7
     if n <= limit:
         sc['partitions'] = 'all'
@@ -238,7 +243,28 @@ def generate(rng, tier, idx):
 
 
 def scenario_bytes(sc):
-    return sc['text'].encode('utf-8')
+    text = sc['text']
+    if sc.get('bad_hex'):
+        # bytes that are not valid UTF-8, inserted in front of the bad_at-th character (clamped, so that shrinking the text keeps them)
+        at = min(sc.get('bad_at', 0), len(text))
+        return text[:at].encode('utf-8') + bytes.fromhex(sc['bad_hex']) + text[at:].encode('utf-8')
+    return text.encode('utf-8')
+
+
+def rejection_view(out):
+    """For content that is not valid UTF-8: that it is rejected, and with which decode message, must not depend on the
+    schedule. How many records were handed out before the rejection legitimately does (the byte stream is decoded one raw
+    read at a time), and so does which defect is met first when the content is also mis-quoted."""
+    if out[0] == 'ioerr':
+        return ['ioerr', out[1] if 'decode' in out[1].lower() else '<another rejection>']
+    return out
+
+
+def same_rejection(a, b):
+    a, b = rejection_view(a), rejection_view(b)
+    if a == b:
+        return True
+    return a[0] == 'ioerr' and b[0] == 'ioerr' and '<another rejection>' in (a[1], b[1])
 
 
 def read_via_entry(t, sc, pieces, stats):
@@ -481,11 +507,12 @@ def execute(sc):
     counters = {}
     n = len(sc['text']) if sc['level'] == 'text' else len(scenario_bytes(sc))
     ref = read_case(t, sc, [n] if n else [], n + 1)
-    model = model_outcome(t, sc) if not sc.get('entry') else ref
+    model = model_outcome(t, sc) if not (sc.get('entry') or sc.get('bad_hex')) else ref
+    bad = bool(sc.get('bad_hex'))
     res = {'verdict': 'ok', 'oracle': None, 'counters': counters, 'evals': 0, 'nontrivial': 0, 'steps': 0}
     if sc['kind'] == 'batch':
         res['key'] = core.key64([sc['level'], sc['text'], sc['policy'], sc['delim'], sc['comment_prefix'], sc['has_header'], sc['line_mode'],
-                                 sc.get('shape'), sc.get('bufsize'), sc.get('entry'), sc.get('num_rows')])
+                                 sc.get('shape'), sc.get('bufsize'), sc.get('entry'), sc.get('num_rows'), sc.get('bad_hex'), sc.get('bad_at')])
     else:
         res['key'] = core.key64(sc)
     if model_view(ref) != model_view(model):
@@ -533,7 +560,7 @@ def execute(sc):
                     break
         if stats.get('nreads', 0) >= 3 and interesting:   # >= 2 data reads + the EOF read
             res['nontrivial'] += 1
-        if out != ref:
+        if (not same_rejection(out, ref)) if bad else (out != ref):
             res.update(verdict='violation', oracle='schedule', detail={'whole_delivery': ref, 'this_schedule': out, 'pieces': pieces, 'chunk_size': cs},
                        case=single_case(sc, pieces, cs))
             break
@@ -543,6 +570,10 @@ def execute(sc):
         bump(counters, 'probe.rfc_record_spans_lines')
     if any('BOM' in w for w in (ref[-1] if ref[0] in ('ok', 'rows') else [])):
         bump(counters, 'probe.bom_dropped')
+    if bad:
+        bump(counters, 'fault.invalid_utf8_bytes_in_content')
+        if ref[0] == 'ioerr' and 'decode' in ref[1].lower():
+            bump(counters, 'probe.invalid_utf8_rejected')
     if n >= 1000:
         bump(counters, 'probe.content_crosses_default_chunk_size')
     if n > 1048576:
@@ -577,7 +608,7 @@ def shrinks(sc):
     is_text = sc['level'] == 'text'
 
     def units(s):
-        return len(s) if is_text else len(s.encode('utf-8'))
+        return len(s) if is_text else len(scenario_bytes(dict(sc, text=s)))
 
     def with_text(new_text, new_pieces=None):
         c = dict(sc)
